@@ -558,6 +558,26 @@ class OfferLifeMonitor(Monitor):
                     if up:
                         ivs.append((since, w.t_end + 1.0, "running"))
                     mine = [x for x in log if x[2] == (s[0], s[1])]
+                    # on the wire: once the StopOffer of a graceful stop has left, no live offer for the instance leaves - to
+                    # anyone - before the instance is up again
+                    tr = next((tr for i2, tr in node.transports if i2 == inc), None)
+                    stop_t = None
+                    for t, _it, data, addr in (tr.sent if tr is not None else ()):
+                        try:
+                            msgs = refwire.parse_sd_datagram(data)
+                        except refwire.RefError:
+                            continue
+                        for e in (e for sd in msgs for e in sd["entries"] if e["type"] == 1 and (e["sid"], e["iid"]) == (s[0], s[1])):
+                            if e["ttl"] == 0:
+                                stop_t = t
+                                w.stats["stopoffers_followed_on_the_wire"] += 1
+                            elif stop_t is not None:
+                                if any(stop_t - w.cfg["ct"] - 4 * RES <= a <= t + 4 * RES for a, _b, _h in ivs):
+                                    stop_t = None
+                                else:
+                                    w.fail("live-offer-on-the-wire-after-the-stopoffer", node,
+                                           dict(service=s[:2], stopoffer_sent_at=stop_t, offer_sent_at=t, dst=addr))
+                                    stop_t = None
                     for k, (t0, t1, how) in enumerate(ivs):
                         nxt = ivs[k + 1][0] if k + 1 < len(ivs) else w.t_end + 1.0
                         w.stats["offer_intervals_checked"] += 1
